@@ -8,6 +8,22 @@ from ..operations import Gate
 from .instruction import Instruction
 
 
+# Gates that commute with another gate of the same name whenever the two
+# share their (sorted) control qubits or their (sorted) target qubits.
+# Gate families that do not commute with themselves in general
+# (e.g. QASMU, R, MS with different parameters, FREDKIN sharing a control,
+# RZX with exchanged targets, user-defined gates) are not listed.
+_SELF_COMMUTING_GATES = frozenset(
+    [
+        "X", "Y", "Z", "RX", "RY", "RZ", "S", "T", "H", "SNOT", "SQRTNOT",
+        "PHASEGATE", "IDLE",
+        "CNOT", "CX", "CY", "CZ", "CSIGN", "CS", "CT",
+        "CRX", "CRY", "CRZ", "CPHASE", "TOFFOLI",
+        "SWAP", "ISWAP", "SQRTSWAP", "SQRTISWAP", "SWAPALPHA", "BERKELEY",
+    ]
+)
+
+
 class InstructionsGraph:
     """
     A directed acyclic graph (DAG) representation
@@ -538,7 +554,8 @@ class Scheduler:
         If the two gates do not have the same name,
         they are considered as not commuting.
         If they are the same gate and have the same controls or targets,
-        they are considered as commuting.
+        they are considered as commuting, provided the gate belongs to a
+        family that commutes with itself (``_SELF_COMMUTING_GATES``).
         E.g. `CNOT 0, 1` commute with `CNOT 0, 2`.
         """
         instruction1 = instructions[ind1]
@@ -567,6 +584,8 @@ class Scheduler:
             else:
                 commute = False
             return commute
+        if instruction1.name not in _SELF_COMMUTING_GATES:
+            return False
         if (instruction1.controls) and (
             instruction1.controls == instruction2.controls
         ):
